@@ -125,6 +125,7 @@ class FactoredInference:
         L = self._lipschitz(measurements) if lipschitz is None else lipschitz
         if self.log:
             print('Lipchitz constant:', L)
+        if L == 0: return
     
         theta = model.potentials
         x = y = z = model.belief_propagation(theta)
